@@ -252,12 +252,14 @@ func collectSites(f *File, from int) []tokSite {
 	return sites
 }
 
+var c13Auto = AutoCfg{"checkitem": {VarName: "VAR_RESULT"}, "specialvar": {ArgPos: new(int)}}
+
 var c13ValWords = []string{"1", "2", "7", "0x10", "-3", "FLAG_BASE", "VAR_BASE", "ITEM_X", "ITEM_NONE", "step_end", "+", "-", "*", "|", "&"}
 
 func genC13(t *rapid.T) *C13Case {
 	cfg := DefaultFileCfg()
 	cfg.CF.MaxDepth = 3
-	cfg.CF.Auto = AutoCfg{"checkitem": {VarName: "VAR_RESULT"}}
+	cfg.CF.Auto = c13Auto
 	cfg.CF.AutoP = 6
 	cfg.CF.SymCases = true
 	cfg.MaxTops = 5
@@ -273,6 +275,11 @@ func genC13(t *rapid.T) *C13Case {
 	var defs []cdef
 	for i := 0; i < nconst; i++ {
 		name := fmt.Sprintf("K%d", i)
+		if i == nconst-1 && rapid.IntRange(0, 4).Draw(t, "resultvarname") == 0 {
+			// a constant that happens to be named like the result var of an AutoVar command:
+			// written uses of that name are substituted, the implicit result var of the command is not
+			name = "VAR_RESULT"
+		}
 		var val []string
 		n := rapid.IntRange(1, 4).Draw(t, "nval")
 		open := rapid.IntRange(0, 3).Draw(t, "parens") == 0
@@ -414,7 +421,7 @@ func checkC13(c *C13Case) *Violation {
 	pr := PrintFile(c.File)
 	pl := pr.Layout(CanonGap(pr.Toks))
 	src := pl.Src
-	o := Opts{Optimize: true, FontPath: "@repo", Auto: AutoCfg{"checkitem": {VarName: "VAR_RESULT"}}}
+	o := Opts{Optimize: true, FontPath: "@repo", Auto: c13Auto}
 	r1 := Compile(src, o)
 	if r1.Panic != nil || r1.Budget {
 		return viol("crash", "%s\n--- source\n%s", r1.Describe(), src)
